@@ -21,6 +21,7 @@
 -/
 import GormModel.Lemmas.Heap
 import GormModel.Lemmas.HeapQuiet
+import GormModel.Lemmas.HeapSim
 namespace Gorm
 open Gorm.Heap
 
@@ -286,6 +287,78 @@ theorem C06_linear_history_frozen (fuel : Nat) (sl : List (List Nat × Nat)) (pr
   rw [List.take_left'  rfl] at h2
   show (runFrom cfgFixed sl fuel (initState sl) (pre ++ post)).heap.writes = (runFrom cfgFixed sl fuel (initState sl) pre).heap.writes
   rw [C06_cfgFixed_eq, h1, h2]
+
+/-! ## NON-INTERFERENCE -/
+
+/-- THE PROPERTY, on a tree whose regenerated facts say "copies everywhere" (`cfgFixed`): for EVERY history in
+    which chain instances are used at most once more (`Linear`) — any tree of Session / Session{NewDB} /
+    WithContext / Begin derivations, all chain methods incl. handles (with or without pending scopes) as group
+    conditions, Select / Joins / Scopes appends, renderings (Where.Build's swap), First / Count / Delete shaping,
+    any capacities, any nesting depth (`fuel`) — the rendering made by op `k` inside the history is exactly the
+    rendering of the same chain replayed alone (`sliceFor`: every op the chain does not depend on replaced by
+    nothing).  Proof: linear histories are quiet (ownership invariant, Lemmas/HeapQuiet), quiet runs are frozen,
+    and rendering reads only slices reachable from the chain's own handle, whose deep values (array identities
+    quotiented away) agree in the two runs by a lockstep simulation (Lemmas/HeapSim). -/
+theorem C06_noninterference (fuel : Nat) (sl : List (List Nat × Nat)) (ops : List Op) (hl : Linear ops)
+    (k src fin : Nat) (hk : ops[k]? = some (.render src fin)) :
+    (run cfgFixed fuel ⟨sl, ops.take (k + 1)⟩).outs.getLast? = (run cfgFixed fuel (sliceFor ⟨sl, ops⟩ k)).outs.getLast? :=
+  sim_slice sl fuel ops k src fin hk (quiet_of_linear sl fuel ops hl) (quiet_sliceFor fuel ⟨sl, ops⟩ hl k)
+
+/-- … and in the stronger "whatever else happens" form: two linear histories that contain the same chain (agree
+    on a set `R` of handles closed under source and arguments of the ops that created them) and ANYTHING else
+    at the other positions render that chain identically. -/
+theorem C06_noninterference_any_context (fuel : Nat) (sl : List (List Nat × Nat)) (ops1 ops2 : List Op) (R : Nat → Bool)
+    (ha : Agree ops1 ops2 R) (h1 : Linear ops1) (h2 : Linear ops2)
+    (k src fin : Nat) (hk : ops1[k]? = some (.render src fin)) (hR : R (k + 1) = true) :
+    (run cfgFixed fuel ⟨sl, ops1.take (k + 1)⟩).outs.getLast? = (run cfgFixed fuel ⟨sl, ops2.take (k + 1)⟩).outs.getLast? :=
+  sim_render sl fuel ops1 ops2 R ha (quiet_of_linear sl fuel ops1 h1) (quiet_of_linear sl fuel ops2 h2) k src fin hk hR
+
+/-- WHAT HOLDS FOR THE CURRENT SOURCE TREE, decided by the regenerated facts — the same statement on every tree:
+    either the facts say "copies everywhere" and non-interference holds in full for the tree's own discipline
+    `genAll`; or some place is still "in place", then a listed witness interferes under `genAll` (the finding)
+    and the partial theorem `C06_noninterference_partial` is what remains. -/
+theorem C06_noninterference_current_tree :
+    (genAll = cfgFixed ∧
+      ∀ (fuel : Nat) (sl : List (List Nat × Nat)) (ops : List Op), Linear ops → ∀ (k src fin : Nat),
+        ops[k]? = some (.render src fin) →
+        (run genAll fuel ⟨sl, ops.take (k + 1)⟩).outs.getLast? = (run genAll fuel (sliceFor ⟨sl, ops⟩ k)).outs.getLast?) ∨
+    (genAll ≠ cfgFixed ∧
+      (interferes genAll f4History 6 0 = true ∨ interferes genAll f5History 6 1 = true ∨ interferes genAll f23History 6 1 = true ∨
+       interferes genAll f22History 2 0 = true ∨ interferes genAll f24History 6 2 = true)) := by
+  by_cases h : genAll = cfgFixed
+  · left
+    refine ⟨h, fun fuel sl ops hl k src fin hk => ?_⟩
+    rw [h]; exact C06_noninterference fuel sl ops hl k src fin hk
+  · right
+    refine ⟨h, ?_⟩
+    obtain ⟨h4, h5, h23, h22, h24⟩ := C06_findings_current_tree
+    rw [h4, h5, h23, h22, h24]
+    by_cases c1 : genAll.mg.ret = .appendOld
+    · left; simp [c1]
+    · by_cases c2 : genAll.fx.groupCopies = false
+      · right; left; simp [c2]
+      · by_cases c3 : genAll.fx.buildCopies = false
+        · right; right; left; simp [c3]
+        · by_cases c4 : genAll.fx.selectCopies = false
+          · right; right; right; left; simp [c4]
+          · by_cases c5 : genAll.fx.groupInstance = false
+            · right; right; right; right; simp [c5]
+            · exfalso; apply h
+              have ht := C06_current_tree
+              have hr : genAll.mg.ret = .makeCopy := by
+                rcases C06_current_tree_ret with e | e
+                · exact absurd e c1
+                · exact e
+              rw [ht, hr]
+              have e2 : genAll.fx.groupCopies = true := by simpa using c2
+              have e3 : genAll.fx.buildCopies = true := by simpa using c3
+              have e4 : genAll.fx.selectCopies = true := by simpa using c4
+              have e5 : genAll.fx.groupInstance = true := by simpa using c5
+              generalize genAll.fx = fx at *
+              cases fx
+              simp only at e2 e3 e4 e5
+              subst e2 e3 e4 e5
+              rfl
 
 /-- `Linear` is decidable (the harness generator obeys it) and not vacuous -/
 example : Linear f5History.ops := (linear_iff_linearB _).2 (by decide)
